@@ -847,6 +847,7 @@ func c14Scenario(c *Ctx, sh *shard, dir string, n int, p c14Plan, fsMeta bool) {
 	cfg.MaxBufferedTime = time.Hour
 	cfg.MaxQueryConcurrency = 1 + c.intn(2)
 	cfg.RowDataCompression = bs.CompressionNone
+	cfg.MinMaxIndexes = []string{"id"}
 	eng, err := bs.NewBloomSearchEngine(cfg, &c14Meta{h}, &c14Data{h})
 	must(err)
 	eng.Start()
@@ -935,7 +936,14 @@ func c14Scenario(c *Ctx, sh *shard, dir string, n int, p c14Plan, fsMeta bool) {
 					}
 					return []string{"LQStart"}
 				})
-				res, err := eng.Query(context.WithValue(bg, c14ActorKey{}, actor), bs.NewQuery().Build())
+				// every row satisfies the prefilter that every other query carries (ids are >= 0 and "id" is a
+				// minmax key), so the expected answer is the same; what the MetaStore holds for a file must
+				// still say so after later batches were buffered and flushed
+				qb := bs.NewQuery()
+				if (n+q.id)%2 == 1 {
+					qb = qb.MatchPrefilter(bs.MinMax("id", bs.NumericGreaterThanEqual(0)))
+				}
+				res, err := eng.Query(context.WithValue(bg, c14ActorKey{}, actor), qb.Build())
 				must(err)
 				for res.Next() {
 					q.rows = append(q.rows, int(res.Row()["id"].(float64)))
